@@ -25,12 +25,16 @@ ASSUMPTIONS = ["K-layer tolerance |a-b| <= 1e-10 + 1e-8 max(|a|,|b|) between mod
 def scenario(ctx, i):
     r = ctx.rng
     C, D, N = gen.dims(ctx, nmax_q=12, nmax_t=40)
-    kind = ["bulk", "tail", "mixed", "floor", "bulk", "highdim", "separated", "tinyweight", "underflow_edge", "tie"][int(r.integers(0, 10))]
+    kind = ["bulk", "tail", "mixed", "floor", "bulk", "highdim", "separated", "tinyweight", "underflow_edge", "tie", "tinyunit"][int(r.integers(0, 11))]
     if kind == "highdim":
         # many features with a common scale far from 1: the log-normaliser sum_d log(2 pi var_d) is of order +-1e3,
         # its exponential is far outside the double range (the density is fine: only its log is ever needed)
         C, D, N = int(r.integers(1, 4)), int(r.choice([64, 200, 400])), int(r.integers(1, 4))
         w, m, v, sc = gen.gmm_params(r, C, D, scales=np.full(D, 10.0 ** r.uniform(-3, 3)))
+    elif kind == "tinyunit":
+        # features in a small unit (1e-5 .. 1e-7 of the usual one): variances of 1e-10 .. 1e-14 are ordinary numbers there, and
+        # the machine gets them after it held other ones (construction route `restage`)
+        w, m, v, sc = gen.gmm_params(r, C, D, scales=np.full(D, 10.0 ** r.uniform(-7, -5)))
     else:
         w, m, v, sc = gen.gmm_params(r, C, D)
     if kind == "separated" and C >= 2:
@@ -85,6 +89,8 @@ def scenario(ctx, i):
     if kind == "bulk":
         x = gen.maybe_int(r, x, p=0.25)  # other legal dtypes of the sample array (the model sees the same values)
     order = ["thr_first", "thr_last", "restage", "ubm_copy", "hdf5_ubm"][int(r.integers(0, 5))] if kind == "floor" else ["thr_first", "restage", "ubm_copy", "hdf5_ubm"][int(r.integers(0, 4))]
+    if kind == "tinyunit":
+        order, thr = "restage", 0.0
     return dict(kind=kind, C=C, D=D, w=w, m=m, v=v, thr=thr, x=x, tail=tail, order=order, int_means=int_means)
 
 
